@@ -42,6 +42,7 @@ type Engine struct {
 	dropped map[string]bool   // calls dropped by extraction (logging etc.)
 	strLits map[string]*Term
 	tagIDs  map[string]int64
+	deps    map[string]map[string]bool // function under contract -> verified callees whose contracts it used
 	curFn   string
 	verbose bool
 	forceMerge bool
